@@ -177,6 +177,17 @@ pub fn build(quick: bool) -> PropRun {
             }
         }
     }
+    // sequences of multi-fragment packets whose window slots are reused (windows 2, 4, 8), with partial losses
+    for (name, ops) in collision_scripts().into_iter().filter(|(n, _)| n.starts_with("frag-slot-reuse") || n.starts_with("persistent-frag") || n.starts_with("frag3")) {
+        for (pw, fw) in [(2u32, 8u32), (4, 8), (8, 16)] {
+            let cfg = LwCfg { pwin: pw, fwin: fw, ..LwCfg::small() };
+            let si = Arc::new(ScriptInfo::new(ops.clone()));
+            let dev = if quick { 8 } else { 10 };
+            let env = LwEnv { fates: &[Fate::Deliver, Fate::Drop, Fate::Dup, Fate::Delay3], deltas: &[20, 2000], dev_rounds: dev, dev_start: 0, max_rounds: dev + crate::props::T_LIVE_ROUNDS, skip_choice: false, flush_choice: false, blackouts: &[], stop_when_idle: true,
+                              fair_delta: 20, slow_after: usize::MAX, slow_delta: 250, fuel: 4_000_000, shifts: &[] };
+            scs.push(lw_scenario(LwSpec { tag: format!("C04.seq.{}", name), cfg, script: si, env, d: if quick { 2 } else { 3 }, oracles, probe_round: 0 }));
+        }
+    }
     if !quick {
         // the absolute maximum packet size: 65536 fragments
         let size = uflow::MAX_PACKET_SIZE;
